@@ -170,10 +170,11 @@ def place_chops(rs: Stream, geo: Dict[str, Any], opts: Dict[str, Any]) -> Dict[s
             n2 = n1 + rs.pick([1, 2, -1]) if n1 > 2 else n1 + rs.randint(1, 3)
             for (bi, a, par), n in ((first, n1), (second, n2)):
                 chops.append({"block": refblocks[bi].name, "axis": a, "sections": [_explicit_chop(rs, n, lmin, plain=rs.chance(0.5))]})
-            # sometimes a third, agreeing with one of them
+            # often more sources that agree with the first one: the odd one out may then be
+            # surrounded by blocks that agree among themselves
             rest = [m for m in partners if m != second]
-            if rest and rs.chance(0.25):
-                bi, a, par = rs.pick(rest)
+            nmore = rs.weighted([(0, 4), (1, 3), (2, 2), (3, 1)])
+            for (bi, a, par) in rs.shuffled(rest)[:nmore]:
                 chops.append({"block": refblocks[bi].name, "axis": a, "sections": [_explicit_chop(rs, n1, lmin, plain=True)]})
             continue
         nsrc = 1
